@@ -3,8 +3,8 @@
 #  1. existing suite passes with the change   2. demo fails with the change   3. demo passes without it
 id=$1; wt=$2
 cd $wt || exit 2
-git diff -- src > /tmp/seed/$id.current.diff
-if ! diff -q /tmp/seed/$id.current.diff _seed/patch.diff >/dev/null; then echo "NOTE: worktree diff differs from _seed/patch.diff"; fi
+git diff -- src > /tmp/seed_$id.current.diff
+if ! diff -q /tmp/seed_$id.current.diff _seed/patch.diff >/dev/null; then echo "NOTE: worktree diff differs from _seed/patch.diff"; fi
 echo "== suite with change (excluding demo)"
 cargo test --offline --lib --test cached_integration_test --test cached_concurrency_integration_test 2>&1 | grep -E "^test result|FAILED|failed" | head
 echo "== demo with change (expect FAIL)"
